@@ -191,15 +191,15 @@ def step (hash data : W8) : W8 :=
 
 /-- `pp_crypto_hash_gost3411_sum_256 (a, b)`: the new `a` -/
 def sum256 (a b : W8) : W8 :=
-  let (r0, c) := addc a.w0 b.w0 false
-  let (r1, c) := addc a.w1 b.w1 c
-  let (r2, c) := addc a.w2 b.w2 c
-  let (r3, c) := addc a.w3 b.w3 c
-  let (r4, c) := addc a.w4 b.w4 c
-  let (r5, c) := addc a.w5 b.w5 c
-  let (r6, c) := addc a.w6 b.w6 c
-  let (r7, _) := addc a.w7 b.w7 c
-  ⟨r0, r1, r2, r3, r4, r5, r6, r7⟩
+  let s0 := addc a.w0 b.w0 false
+  let s1 := addc a.w1 b.w1 s0.2
+  let s2 := addc a.w2 b.w2 s1.2
+  let s3 := addc a.w3 b.w3 s2.2
+  let s4 := addc a.w4 b.w4 s3.2
+  let s5 := addc a.w5 b.w5 s4.2
+  let s6 := addc a.w6 b.w6 s5.2
+  let s7 := addc a.w7 b.w7 s6.2
+  ⟨s0.1, s1.1, s2.1, s3.1, s4.1, s5.1, s6.1, s7.1⟩
 
 /-! ## bytes ↔ words (little-endian) -/
 
